@@ -217,11 +217,22 @@ def execute(scenario, ch):
         # track futures by wrapping the public submit_task on the instance (PushService calls it through self)
         cur = {}
         done_ns = {}
+        boxes = {}
 
         def tracking_submit(task, *args):
-            f = orig_submit(task, *args)
+            box = {}
+
+            def run(*a):
+                # the step at which the task itself ended, taken on the worker (a done-callback added after the
+                # hand-over returned can run late, on the submitting thread)
+                try:
+                    return task(*a)
+                finally:
+                    box["step"] = kernel.K.yields
+            f = orig_submit(run, *args)
             me = kernel.active().me().name
             cur.setdefault(me, []).append(f)
+            boxes[id(f)] = box
             f.add_done_callback(lambda _f: done_ns.__setitem__(id(_f), kernel.K.now_ns))
             return f
         th.submit_task = tracking_submit
@@ -305,6 +316,16 @@ def execute(scenario, ch):
                 viol.append(V("flush-raised:%s" % fl.get("out"), "flush in %s raised %s" % (fl["thread"], fl.get("out"))))
             elif fl.get("undone"):
                 viol.append(V("flush-returned-early", "accepted before flush and unfinished at return: %s" % fl["undone"]))
+            else:
+                # a hand-over that OVERLAPS the flush is either accepted - then it counts as accepted before the close,
+                # and the flush waits for it - or refused: accepted and still unfinished when the flush returned is neither
+                late = [sid for sid, a in hist["accept"].items()
+                        if a.get("out") == "ok" and a.get("future") is not None and a["call"] < fl["ret"] and a.get("ret", 0) > fl["call"]
+                        and boxes.get(id(a["future"]), {}).get("step", 1 << 62) > fl["ret"]
+                        and done_ns.get(id(a["future"]), 1 << 62) - fl["call_ns"] < 9_500_000_000]
+                if late:
+                    viol.append(V("accepted-during-flush-but-not-awaited", "%s handed over while flush ran, accepted, and "
+                                  "unfinished when flush returned" % late))
         k.log("hist", sorted((sid, a.get("out")) for sid, a in allacc.items()),
               [(f["thread"], f.get("out")) for f in hist["flush"]])
         k.probe("flush_with_running_task", sum(1 for fl in hist["flush"] if any(
